@@ -1,7 +1,7 @@
 (* Tree.v — treebandit.py (_TreeBandit).  The regression trees are an oracle: [leaf a x] is
    arm_to_tree[a].apply([x]) for the tree currently held for arm a. *)
 From Coq Require Import ZArith List Bool.
-From MW Require Import Num Assoc Rng CF Matrix Nbr.
+From MW Require Import Num Assoc Rng CF Matrix Lin Nbr.
 Import ListNotations.
 
 Section Tree.
@@ -13,11 +13,12 @@ Record tree := mkTree {
   t_arms : list A;
   t_lp : @cf R A;                           (* self.lp *)
   t_exp : list (A * R);                     (* arm_to_expectation (zeros) *)
-  t_leaves : list (A * list (nat * list R)) (* arm_to_leaf_to_rewards *)
+  t_leaves : list (A * list (nat * list R)); (* arm_to_leaf_to_rewards *)
+  t_nf : option nat                         (* n_features_in_ of the fitted trees (None: no tree fitted yet) *)
 }.
 
 Definition tree_init (kf1 kf2 : bool) (arms : list A) (l : @cf R A) : tree :=
-  mkTree kf1 kf2 arms l (afromkeys arms (zero N)) (afromkeys arms []).
+  mkTree kf1 kf2 arms l (afromkeys arms (zero N)) (afromkeys arms []) None.
 
 Definition tree_binarize (s : tree) (ds : list A) (rs : list R) : @cf R A * list R :=
   match c_kind (t_lp s), c_binz (t_lp s) with
@@ -34,24 +35,26 @@ Definition tree_fit_arm (leaf : A -> list R -> nat) (lv : list (A * list (nat * 
                        rows (aget_d aeqb [] lv a) in
   match rows with [] => lv | _ => aset aeqb lv a tbl end.
 
-Definition tree_parallel_fit (s : tree) (l : @cf R A) (lv : list (A * list (nat * list R))) leaf ds rs cx : tree :=
+Definition tree_parallel_fit (s : tree) (l : @cf R A) (lv : list (A * list (nat * list R))) (nf : option nat) leaf ds rs (cx : mat (R:=R)) : tree :=
+  let trains := existsb (fun a => existsb (fun d => aeqb d a) ds) (t_arms s) in
   mkTree (t_kf_rebin s) (t_kf_sharedrng s) (t_arms s) l (t_exp s)
-         (fold_left (fun lv a => tree_fit_arm leaf lv a ds rs cx) (t_arms s) lv).
+         (fold_left (fun lv a => tree_fit_arm leaf lv a ds rs cx) (t_arms s) lv)
+         (match nf with Some d => Some d | None => if trains then Some (ncols cx) else None end).
 
 Definition tree_fit (s : tree) leaf ds rs (cx : mat (R:=R)) : tree :=
   let (l, rs') := tree_binarize s ds rs in
-  tree_parallel_fit s l (afromkeys (t_arms s) []) leaf ds rs' cx.
+  tree_parallel_fit s l (afromkeys (t_arms s) []) None leaf ds rs' cx.
 
 Definition tree_partial_fit (s : tree) leaf ds rs (cx : mat (R:=R)) : tree :=
   let (l, rs') := tree_binarize s ds rs in
-  tree_parallel_fit s l (t_leaves s) leaf ds rs' cx.
+  tree_parallel_fit s l (t_leaves s) (t_nf s) leaf ds rs' cx.
 
 Definition tree_add_arm (s : tree) (a : A) bz : tree :=
   mkTree (t_kf_rebin s) (t_kf_sharedrng s) (t_arms s ++ [a]) (cf_add_arm N aeqb (t_lp s) a bz)
-         (aset aeqb (t_exp s) a (zero N)) (aset aeqb (t_leaves s) a []).
+         (aset aeqb (t_exp s) a (zero N)) (aset aeqb (t_leaves s) a []) (t_nf s).
 Definition tree_remove_arm (s : tree) (a : A) : tree :=
   mkTree (t_kf_rebin s) (t_kf_sharedrng s) (lremove aeqb (t_arms s) a) (cf_remove_arm N aeqb (t_lp s) a)
-         (apop aeqb (t_exp s) a) (apop aeqb (t_leaves s) a).
+         (apop aeqb (t_exp s) a) (apop aeqb (t_leaves s) a) (t_nf s).
 
 (* _create_leaf_lp + fit + predict_expectations()[arm] *)
 Definition leaf_expectation (s : tree) (g : G) (a : A) (rewards : list R) : R * G :=
